@@ -121,6 +121,14 @@ func (c *Ctx) Violation(kind, class, locus, detail string) {
 	c.w.viol = append(c.w.viol, v)
 }
 
+// ViolationCase reports a violation whose replay case is caseData (a single concrete input) instead of the whole generated case.
+func (c *Ctx) ViolationCase(kind, class, locus, detail string, caseData any) {
+	saved := c.caseData
+	c.caseData = caseData
+	c.Violation(kind, class, locus, detail)
+	c.caseData = saved
+}
+
 func (c *Ctx) Count(name string, n int64) { c.w.counters[name] += n }
 
 func (c *Ctx) Max(name string, v int64) {
